@@ -444,6 +444,11 @@ pub enum Shape {
     /// a message and ends (or drops its handle and collects) before the receiver looks: the
     /// queued handle alone keeps the channel and what is queued in it alive
     Handoff,
+    /// several writer tasks, spawned back to back, that never call the host and never block,
+    /// write into one channel; main only reads and reports. The merge order is not known to the
+    /// generator, but it cannot depend on slicing: nothing a slice boundary or a late host
+    /// answer delays (only main ever waits for the host) takes part in producing it
+    FanInLockstep,
 }
 
 pub const DETERMINATE: &[Shape] = &[
@@ -454,6 +459,8 @@ pub const DETERMINATE: &[Shape] = &[
     Shape::ChannelInMessage,
     Shape::AliasedRequest,
     Shape::Handoff,
+    Shape::FanInLockstep,
+    Shape::FanInLockstep,
 ];
 
 pub const ALL: &[Shape] = &[
@@ -470,12 +477,13 @@ pub const ALL: &[Shape] = &[
     Shape::AliasedRequest,
     Shape::WorkPool,
     Shape::Handoff,
+    Shape::FanInLockstep,
 ];
 
 pub fn generate(rng: &mut Rng, shapes: &[Shape], print_from_main: bool) -> Workload {
     let shape = *rng.pick(shapes);
     let mut kind = *rng.pick(KINDS);
-    if (shape == Shape::AliasedRequest || shape == Shape::WorkPool) && kind == Kind::BigArr {
+    if (shape == Shape::AliasedRequest || shape == Shape::WorkPool || shape == Shape::FanInLockstep) && kind == Kind::BigArr {
         // three large arrays rendered per request would dominate the run
         kind = Kind::Arr;
     }
@@ -561,6 +569,23 @@ pub fn generate(rng: &mut Rng, shapes: &[Shape], print_from_main: bool) -> Workl
             }
             sorted_only = true;
             projection = Projection::None;
+        }
+        Shape::FanInLockstep => {
+            let writers = rng.range(2, 3) as i64;
+            src.push_str(&format!("fn produce(out: channel<{ty}>, w: int, n: int, pad: int, gap: int) {{\n    work(pad)\n    for i in n {{\n        out.write(mk(w, i))\n        work(gap)\n    }}\n}}\n\n"));
+            src.push_str(&format!("let c: channel<{ty}> = channel()\n"));
+            for w in 1..=writers {
+                src.push_str(&format!("task {{\n    produce(c, {w}, {m}, {}, {})\n}}\n", rng.below(8), rng.below(4)));
+            }
+            src.push_str(&maybe_work(rng, ""));
+            src.push_str(&format!("for i in {} {{\n    let y = c.read()\n    {}}}\n", writers * m, say(7, "show(y)")));
+            for w in 1..=writers {
+                for i in 0..m {
+                    obs.push((7, kind.mk(w, i).show()));
+                }
+            }
+            sorted_only = true;
+            projection = Projection::MainOnly;
         }
         Shape::WriterDiesFirst => {
             let drops_and_collects = rng.chance(1, 2);
